@@ -189,6 +189,48 @@ def C08_2(ctx, facts):
                   c.where())
 
 
+def zero_progress(f, lab, rb):
+    """Is this edge the outcome of a test "the last read added no byte"?  True: the zero-progress side, False: the side on which
+    progress was made, None: not such a test.  (`len_after == len_before`, or `filled[len_before..].is_empty()`.)"""
+    if lab is None or lab.kind != "bool" or lab.value is None:
+        return None
+    c = lab.cond
+    if c.kind == "binop" and c.op in ("Eq", "Ne"):
+        sa, sb = sym_len(f, c.a, rb), sym_len(f, c.b, rb)
+        if {sa, sb} == {"FILLED@after", "FILLED@before"}:
+            return lab.value is (c.op == "Eq")
+    if c.kind == "call" and c.site.matches(r"<impl \[T\]>::is_empty$|slice.*::is_empty$") and c.site.args:
+        ext = slice_extent(f, c.site.args[0], rb)
+        if ext is not None and ext[0] == "FILLED" and ext[1] == "FILLED@before" and ext[2] == "FILLED@after":
+            return lab.value is True
+    return None
+
+
+def sniff_loop_progress(ctx, facts, label="ReadVersion::poll"):
+    """Within one poll the sniffer reads again only after a read that added bytes: every way from the read back to the read
+    passes the progress side of a zero-progress test.  Without it a peer that sends part of the preface and closes makes the
+    loop spin on Ready(Ok) reads of nothing - a connection task that never yields (C09: truncated protocol bytes of one
+    client must not disturb the others)."""
+    f = _rv(facts)
+    reads = _reads(f)
+    if not reads:
+        return ctx.missing("%s|read" % label, "no poll_read in ReadVersion::poll")
+    rb = reads[0].bb
+    good = set(f.edges_where(lambda lab: zero_progress(f, lab, rb) is False))
+    again = None
+    for s_ in f.succ[rb]:
+        p = f.path(s_, [rb], avoid_edges=good)
+        if p is not None:
+            again = p
+    ctx.check(again is None, "%s|reads-again-only-after-progress" % label, "the sniffer reads again within one poll only after a read that added bytes (end of stream ends the loop)",
+              "the sniffer can read again without having seen progress: at end of stream (a truncated preface, then close) the loop spins and the task never yields",
+              f.where(rb), f.path_desc(again))
+    for (a, b2) in f.edges_where(lambda lab: zero_progress(f, lab, rb) is True):
+        p = f.path(b2, [rb])
+        ctx.check(p is None, "%s|zero-progress-leaves-loop" % label, "a read that added nothing is never followed by another read in the same poll",
+                  "after a read that added nothing the sniffer can read again", f.where(a), f.path_desc(p))
+
+
 def C08_3(ctx, facts):
     f = _rv(facts)
     reads = _reads(f)
